@@ -68,6 +68,7 @@ type Program struct {
 	Failing     string        // non-empty: a generated statement that fails on its own (kind)
 	FailLine    int
 	FailAltLine int                               // see Site.AltLine
+	ScopeExpect []string                          // scope snippets: what each sibobs() call observes, in call order
 	FailMarker  *Site                             // nested natural failure: a probe evaluated in the same tag just before the failing operation (tells whether it ran)
 	Names       []string                          // every name the generator made up (let / loop / function variables)
 	CtxMaps     map[string]map[string]interface{} // context variables the program expects: option maps for partial() that come from the CALLER's data
@@ -125,6 +126,7 @@ type genOpts struct {
 	brokenPct     int   // probability (percent) of one syntactically broken tag at top level (the program then fails to parse)
 	brokenKinds   []int // restrict broken tags to these catalogue entries (swarm)
 	noise         bool  // multi-line strings / comments between tags (C15)
+	fewArgs       bool  // may end the program with a user-function call that has too few arguments (panics on the pinned tree)
 	ctxProbes     bool  // emit ck() context probes and pbd() {..} detached-root block helpers (C10 inside renders)
 	splitTags     bool  // break single-statement tags across lines at safe points (C15: the tag still begins on the same line)
 	sharedSafe    bool  // never mutate data that may live in a shared parent (always true today)
@@ -500,6 +502,11 @@ func (g *gen) rawExpr(k kind, depth int, class string) string {
 			return g.maybeProbe(g.intArray(), kArr, "indexed-value", false) + "[" + g.maybeProbe(fmt.Sprint(g.intn("ix", 0, 2)), kInt, "index", false) + "]"
 		case 7:
 			g.feat("method_call")
+			if g.pct("nilelem", 20) {
+				// a method called on a NIL element of a slice / map of pointers (the method does not touch its receiver)
+				g.feat("method_call_on_nil_element")
+				return "(" + []string{"nobjs[0]", `nm["x"]`}[g.intn("nilel", 0, 1)] + ".Add(" + g.expr(kInt, 0, "method-arg") + ", " + g.expr(kInt, 0, "method-arg") + "))" // leaf arguments: while the callee is evaluated the collection's NAME is bound to the element
+			}
 			return "obj.Add(" + g.expr(kInt, depth-1, "method-arg") + ", " + g.expr(kInt, depth-1, "method-arg") + ")"
 		case 8:
 			// variadic helper: the failing call can sit in the fixed or the variadic part
@@ -560,6 +567,11 @@ func (g *gen) rawExpr(k kind, depth int, class string) string {
 					return "tagopts(" + g.expr(kStr, depth-1, "go-helper-arg") + ")"
 				}
 				return "truncate(" + g.expr(kStr, depth-1, "go-helper-arg") + ")"
+			}
+			if g.pct("optsvar", 30) {
+				// the options are a map the caller holds (not a literal built for this call)
+				g.feat("helper_options_from_caller_map")
+				return "truncate(" + g.expr(kStr, depth-1, "go-helper-arg") + ", " + []string{"topts", "topt2"}[g.intn("toptwhich", 0, 1)] + ")"
 			}
 			return "truncate(" + g.expr(kStr, depth-1, "go-helper-arg") + `, {"size": ` + g.expr(kInt, 0, "hash-value") + `, "trail": ".."})`
 		case 3:
@@ -829,6 +841,13 @@ func (g *gen) callUser(f variable, depth int) string {
 	for _, pk := range f.fn.params {
 		args = append(args, g.expr(pk, depth, "user-fn-arg"))
 	}
+	if g.o.probes && g.pct("surplusarg", 8) {
+		// DORMANT probe: more arguments than the function has parameters. plush does not evaluate the surplus
+		// ones today; a change that does makes them fault points like any other
+		g.feat("dormant_probe_surplus_argument")
+		s := g.newSite(pkValue, "user-fn-surplus-arg", kInt)
+		args = append(args, fmt.Sprintf("pv(%d, 1)", s.ID))
+	}
 	return f.name + "(" + strings.Join(args, ", ") + ")"
 }
 
@@ -877,6 +896,50 @@ func (g *gen) dataAllowed() bool {
 		}
 	}
 	return false
+}
+
+// scopeSnippet writes, at the top level of the main template, a fixed construct in which plush creates sibling or
+// private scopes, with sibobs(key) calls whose observations are known in advance (Program.ScopeExpect, in call
+// order): a scope never sees what was Set on a sibling, on a helper's private scope, or in an earlier activation.
+func (g *gen) scopeSnippet() {
+	g.feat("scope_snippet")
+	exp := func(xs ...string) { g.p.ScopeExpect = append(g.p.ScopeExpect, xs...) }
+	switch g.intn("scopesnippetkind", 0, 5) {
+	case 0:
+		// one stored block, run twice: data handed to the first run is not there in the second
+		n := g.fresh("sibc")
+		g.cur.write(`<% contentFor("` + n + `") { %><%= sibobs("sibk") %><% } %><%= contentOf("` + n + `", {"sibk": 1}) %><%= contentOf("` + n + `") %>`)
+		exp("1", "nil")
+	case 1:
+		// a let inside the stored block does not survive into its next run
+		n := g.fresh("sibc")
+		g.cur.write(`<% contentFor("` + n + `") { %><%= sibobs("siblet") %><% let siblet = 2 %><% } %><%= contentOf("` + n + `") %><%= contentOf("` + n + `") %><%= sibobs("siblet") %>`)
+		exp("nil", "nil", "nil")
+	case 2:
+		// one partial, rendered twice
+		n := g.fresh("sibp") + ".html"
+		g.p.Partials[n] = `<%= sibobs("sibk") %><% let sibpl = 3 %>`
+		g.cur.write(`<%= partial("` + n + `", {"sibk": 1}) %><%= partial("` + n + `") %><%= sibobs("sibpl") %>`)
+		exp("1", "nil", "nil")
+	case 3:
+		// a block helper that runs its block in a private child scope: inside the block the private binding is
+		// visible, after the helper has returned it is not, and a let after it lands where lets land
+		g.cur.write(`<%= pbn() { %><%= sibobs("sibk") %><% } %><%= sibobs("sibk") %><% let sibafter = 4 %><%= sibobs("sibafter") %>`)
+		exp("1", "nil", "4")
+	case 4:
+		// a stored block run from inside a loop: afterwards the loop's own bindings are still the current ones
+		n := g.fresh("sibc")
+		g.cur.write(`<% contentFor("` + n + `") { %>x<% } %><%= for (sibv) in [1, 2] { %><%= contentOf("` + n + `") %><%= sibobs("sibv") %><% } %><%= sibobs("sibv") %>`)
+		exp("1", "2", "nil")
+	default:
+		// a function body: its lets and parameters are gone after the call, each call starts clean
+		f := g.fresh("sibf")
+		g.cur.write(`<% let ` + f + ` = fn(sibarg) { sibobs("sibl")
+ let sibl = sibarg
+ return sibobs("sibl") } %><%= ` + f + `(5) %><%= ` + f + `(6) %><%= sibobs("sibl") %><%= sibobs("sibarg") %>`)
+		exp("nil", "5", "nil", "6", "nil", "nil")
+	}
+	g.nl()
 }
 
 func (g *gen) curCtx() string {
@@ -956,6 +1019,10 @@ func (g *gen) piece(depth int) {
 	}
 	if g.o.splitTags && g.inFn == 0 && g.pct("multistmt", 6) {
 		g.multiStmtTagPiece(depth)
+		return
+	}
+	if g.o.ctxProbes && g.nest == 0 && g.cur.name == "" && g.inFor == 0 && g.inFn == 0 && len(g.p.ScopeExpect) < 8 && g.pct("scopesnippet", 12) {
+		g.scopeSnippet()
 		return
 	}
 	if g.o.ctxProbes && g.pct("ctxprobe", 25) {
@@ -1056,7 +1123,12 @@ func (g *gen) piece(depth int) {
 			g.tag("<%=", "len("+e+")", "%>")
 			g.tag("<%", "}", "%>")
 		case 4:
-			g.tag("<%=", "tm", "%>")
+			// one instant, several zones, by value and through a pointer
+			g.tag("<%=", []string{"tm", "tm", "tm2", "tm3", "tmp"}[g.intn("tmwhich", 0, 4)], "%>")
+			if g.pct("tmtwice", 30) {
+				g.feat("same_instant_two_zones")
+				g.tag("<%=", []string{"tm2", "tm3", "tm"}[g.intn("tmwhich2", 0, 2)], "%>")
+			}
 			if g.nest == 0 && g.cur.name == "" && g.pct("timefmt", 30) {
 				// a time printed before and after the format is rebound
 				g.feat("print_then_mutate")
@@ -1453,7 +1525,7 @@ func (g *gen) multiStmtTagPiece(depth int) {
 			}
 		}
 		g.pending = g.pending[:0]
-		g.cur.write("  " + stmt + []string{"", "", " ", " \t", "   "}[g.intn("stmttrail", 0, 4)] + "\n")
+		g.cur.write("  " + stmt + []string{"", "", " ", " \t", "   ", ";", " ;"}[g.intn("stmttrail", 0, 6)] + "\n")
 	}
 	g.cur.write("%>")
 }
@@ -2130,11 +2202,15 @@ func (g *gen) failingPiece() {
 		{"member-of-string-field", "obj.Name.Nope"},
 		{"member-of-map-by-dot", "m1.nope.deeper"},
 		{"prefix-minus", "-n1"},
+		{"pathFor-of-nil", "pathFor(nil)"},
+		{"block-helper-called-without-a-block", "needblock()"},
+		{"tilde-without-equals-on-ints", "n1 ~ 2"},
 		{"indexed-field-out-of-range", "obj.Kids[5].Label"},
 		{"indexed-field-missing-member", "obj.Kids[0].Nope"},
 		{"method-on-indexed-field-unknown-identifier", `obj.Kids[0].Hello("x")`},
 		// assignments that fail (statement forms: kind starts with "stmt-")
-		{"stmt-bare-unknown-identifier", "zq"}, // a statement that is ONE token
+		{"stmt-bare-unknown-identifier", "zq"},                                            // a statement that is ONE token
+		{"stmt-partial-without-a-feeder", `let partialFeeder = 1 %><%= partial("pnone")`}, // the name is bound, but not to a feeder
 		{"stmt-assign-string-into-int-slice", `xs[0] = "a"`},
 		{"stmt-assign-with-string-index", `xs["a"] = 1`},
 		{"stmt-assign-index-of-a-number", "n1[0] = 1"},
@@ -2211,7 +2287,9 @@ func (g *gen) failingPiece() {
 		g.tag("<%", "}", "%>")
 	default:
 		g.p.FailLine = g.cur.line
-		if isStmt {
+		if isStmt && strings.Contains(k.body, "%><%") {
+			g.cur.write("<% " + k.body + " %>") // two tags on one line: never split
+		} else if isStmt {
 			g.tag("<%", k.body, "%>")
 		} else if g.o.splitTags && g.pct("failmultistmt", 20) {
 			// the failing statement is the last of several in one code tag, after a comment line
@@ -2274,6 +2352,25 @@ var brokenTags = []string{
 	"<% let x = 1.2.3\n%>",
 	"<% break\n%>",
 	"<%= if (b1) { return 1 } else\n%>",
+	// one expected token missing in each of the parser's less common productions
+	"<%= if (b1) %>a<% } %>",
+	"<%= if (b1) { %>a<% } else if b1 { %>b<% } %>",
+	"<%= if (b1) { %>a<% } else if (b1) %>b<% } %>",
+	"<% let f = fn x { return 1 } %>",
+	"<% let f = fn(x) return 1 %>",
+	"<%= for (x) in xs %>a<% } %>",
+	"<%= if (b1 { %>a<% } %>",
+	"<%= obj.Kids[0].(1) %>",
+	"<%= obj.Kids[0].Label + 1 %>",
+	"<%= n1 | 2 %>",
+	"<%= .5.5 %>",
+	"<%= {\"a\": 1 ] %>",
+	"<%= fn(a, ) { } %>",
+	"<%= foo(1 2) %>",
+	"<%= [1 2] %>",
+	"<%= ) %>",
+	"<%= ] %>",
+	"<% } else { %>",
 	// one broken tag that sets off more than ten messages
 	"<%= 1 ))))))))))))) %>",
 	"<%= pb(0, {\"a\": 1 \"b\": 2, \"c\": 3, \"d\": 4, \"e\": 5, \"f\": 6, \"g\": 7}) { %>\nx\n<% } %>",
@@ -2373,6 +2470,24 @@ func genProgram(t *rapid.T, o genOpts) *Program {
 		g.frames = 0
 		g.tag("<%", "let zz = 7", "%>")
 		g.tag("<%=", "zz", "%>")
+	}
+	if o.fewArgs && g.pct("fewargs", 6) {
+		// a call with FEWER arguments than the function has parameters ends the render of the pinned tree with a panic
+		// (index out of range in evalUserFunction; the harness reports a panic as this execution's result). Only for
+		// engines that compare executions with each other: whatever such a call does, it must do it without touching
+		// the shared parsed program
+		g.feat("user_fn_called_with_too_few_arguments")
+		f := g.fresh("fw")
+		np := g.intn("fewparams", 4, 9)
+		var ps, as []string
+		for i := 0; i < np; i++ {
+			ps = append(ps, fmt.Sprintf("a%d", i))
+		}
+		for i, na := 0, g.intn("fewargsn", 1, np-1); i < na; i++ {
+			as = append(as, fmt.Sprint(i+1))
+		}
+		g.tag("<%", "let "+f+" = fn("+strings.Join(ps, ", ")+") { return a0 }", "%>")
+		g.tag("<%=", f+"("+strings.Join(as, ", ")+")", "%>")
 	}
 	g.text()
 	p.Main = g.cur.sb.String()
